@@ -93,15 +93,23 @@ impl Scenario for C07 {
         let tasks: Vec<Vec<Op>> = (0..n_tasks).map(|_| (0..r.range(1, 8)).map(|_| gen_op(r, node_kind)).collect()).collect();
         let (local_hdr, peer_hdr) = if node_kind { (false, false) } else { (r.chance(1, 2), r.chance(1, 2)) };
         let handshake_fail = if !node_kind && r.chance(1, 8) { (*r.pick(&["nok", "bad_ack", "silence"])).to_string() } else { String::new() };
+        let mut tasks = tasks;
+        let big = !faults && handshake_fail.is_empty() && r.chance(1, 60);
+        if big {
+            // one message of several megabytes with more traffic of the same caller behind it (calm link)
+            let j = r.below(tasks[0].len() as u64) as usize;
+            tasks[0][j] = Op { kind: "send".to_string(), seed: r.next_u64(), size: BIG, pause_ms: 0 };
+            tasks[0].insert(j + 1, Op { kind: "send".to_string(), seed: r.next_u64(), size: 1, pause_ms: 0 });
+        }
         let p = Plan {
             kind: if node_kind { "node" } else { "conn" }.to_string(),
             header_mode: local_hdr && peer_hdr,
             local_hdr,
             peer_hdr,
             handshake_fail,
-            client: end(r),
-            server: end(r),
-            cap: *r.pick(&[0u32, 0, 600, 4096]),
+            client: if big { EndCfg { short_writes: r.chance(1, 2), ..Default::default() } } else { end(r) },
+            server: if big { EndCfg::default() } else { end(r) },
+            cap: if big { 0 } else { *r.pick(&[0u32, 0, 600, 4096]) },
             tasks,
             fault: if faults { (*r.pick(if node_kind { &["write_error", "peer_close"][..] } else { &["write_error", "peer_close", "peer_stalls"][..] })).to_string() } else { String::new() },
             fault_at: r.below(1500),
@@ -118,6 +126,9 @@ impl Scenario for C07 {
         if p.tasks.is_empty() || p.tasks.len() > 12 || (p.cap > 0 && p.cap < 512) {
             return RunOutput::default();
         }
+        if p.tasks.iter().flatten().any(|o| o.size == BIG) && (p.cap != 0 || !p.fault.is_empty() || p.client.chunking != Chunking::Whole || p.server.chunking != Chunking::Whole || p.client.latency_ms > 0 || p.server.latency_ms > 0) {
+            return RunOutput::default();
+        }
         let world = World::new(tape, keep, p.salt);
         let nontrivial = p.tasks.len() > 1 || p.client.short_writes || p.client.stall_16 > 0;
         let ex = execute(&world, 6 * 3_600_000, |w| async move { scenario(&w, &p).await });
@@ -131,7 +142,7 @@ impl Scenario for C07 {
             components_stubbed: &["TCP (SimNet)", "EPMD (stub)", "remote node (handshake acceptor + independent frame, header and term reader)"],
             assumptions: &["payloads come from the sub-space with an unambiguous denotation (DESIGN 2.4); node-local identifier forms are not generated"],
             fault_prefixes: &["fault.", "net."],
-            expected_probes: &["probe.c07.frame_checked_passthrough", "probe.c07.frame_checked_header", "probe.c07.interleaved_tasks", "probe.c07.op_failed_after_fault", "probe.c07.unlink_id_above_2_63", "probe.c07.asymmetric_flag_offer", "probe.c07.node_local_identifier", "probe.c07.same_process_other_form", "probe.c07.same_pair_again", "probe.c07.local_side_is_a_live_process", "probe.c07.unencodable_rejected_cleanly", "probe.c07.nothing_written_after_failed_handshake"],
+            expected_probes: &["probe.c07.frame_checked_passthrough", "probe.c07.frame_checked_header", "probe.c07.interleaved_tasks", "probe.c07.op_failed_after_fault", "probe.c07.unlink_id_above_2_63", "probe.c07.asymmetric_flag_offer", "probe.c07.node_local_identifier", "probe.c07.same_process_other_form", "probe.c07.same_pair_again", "probe.c07.both_identifiers_node_local", "probe.c07.message_of_megabytes", "probe.c07.second_connect_refused", "probe.c07.local_side_is_a_live_process", "probe.c07.unencodable_rejected_cleanly", "probe.c07.nothing_written_after_failed_handshake"],
         }
     }
 }
@@ -161,8 +172,16 @@ fn local_pid_for(task: usize) -> Val {
 
 fn tagged_payload(task: usize, idx: usize, op: &Op) -> Val {
     let mut r = Rng::new(op.seed);
+    if op.size == BIG {
+        // several megabytes in one message
+        let n = (4 << 20) + (op.seed % (2 << 20)) as usize;
+        return Val::tuple(vec![Val::int(task as i128), Val::int(idx as i128), Val::Bin(r.bytes(n))]);
+    }
     Val::tuple(vec![Val::int(task as i128), Val::int(idx as i128), wire::gen_val(&mut r, op.size)])
 }
+
+/// Op::size value that asks for a payload of 4..6 MiB.
+const BIG: u32 = 999;
 
 /// A payload no frame can carry: an atom longer than 65535 bytes, or (header mode) more
 /// distinct atoms than a header has positions.
@@ -239,6 +258,9 @@ async fn scenario(w: &Arc<World>, p: &Plan) {
             peer_flags,
             move |w, conn, _seen| Box::pin(collector(conn, sink2.clone(), p2.clone(), w, ctl2.clone())),
         );
+    }
+    if p.tasks.iter().flatten().any(|o| o.size == BIG) {
+        w.stat("probe.c07.message_of_megabytes");
     }
     if p.kind == "node" {
         let node = match start_node(w, 3).await {
@@ -370,6 +392,13 @@ async fn scenario(w: &Arc<World>, p: &Plan) {
         }
         let mut prev_to: Option<Val> = None;
         for (ix, op) in p.tasks[0].iter().enumerate() {
+            if p.salt & 6 == 6 && ix == (p.salt >> 8) as usize % p.tasks[0].len() {
+                // connect() on the connected object: refused, and the established connection is as it was
+                if conn.connect().await.is_ok() {
+                    w.violation("reconnect-without-close", "connect() on a connected Connection returned Ok".to_string());
+                }
+                w.stat("probe.c07.second_connect_refused");
+            }
             if op.pause_ms > 0 {
                 tokio::time::sleep(Duration::from_millis(u64::from(op.pause_ms))).await;
             }
@@ -391,7 +420,11 @@ async fn scenario(w: &Arc<World>, p: &Plan) {
                 w.stat("probe.c07.same_process_other_form");
             }
             prev_to = Some(to.clone());
-            let from = local_pid_for(0);
+            // the local side in node-local form as well: an operation none of whose identifiers is plain
+            let from = if (op.seed >> 20) % 3 == 0 { Val::Local(rr.bytes(8), Box::new(local_pid_for(0))) } else { local_pid_for(0) };
+            if matches!(from, Val::Local(..)) && matches!(to, Val::Local(..)) {
+                w.stat("probe.c07.both_identifiers_node_local");
+            }
             let (to_e, from_e) = (to_pid(&to).unwrap(), to_pid(&from).unwrap());
             let mut want = Want { task: 0, idx: ix, kind: op.kind.clone(), control: Vec::new(), payload: None, ok: false, err: String::new(), expect_err: false };
             let res = match op.kind.as_str() {
